@@ -131,6 +131,9 @@ pub struct Ctl {
     /// names of the store calls of the current `next` call
     pub trace: RefCell<Vec<&'static str>>,
     pub during_completed_first_poll: Cell<u64>,
+    /// store calls of the driven `next` currently in flight (0: a `Pending` of `next` comes from
+    /// a suspension point of the processor's own code, outside every store call)
+    in_call: Cell<usize>,
 }
 
 impl Ctl {
@@ -202,6 +205,14 @@ impl<S> Gate<S> {
         let index = ctl.call_idx.get();
         ctl.call_idx.set(index + 1);
         ctl.trace.borrow_mut().push(call);
+        struct InCall<'a>(&'a Ctl);
+        impl Drop for InCall<'_> {
+            fn drop(&mut self) {
+                self.0.in_call.set(self.0.in_call.get().saturating_sub(1));
+            }
+        }
+        ctl.in_call.set(ctl.in_call.get() + 1);
+        let _in_call = InCall(ctl);
         let mut variant = 0;
         if ctl.cancels_left.get() > 0 && !ctl.fired_this_call.get() {
             let ch = ctl.chooser.borrow().clone();
@@ -358,6 +369,7 @@ pub async fn drive_next<T, P: Processor<T>>(p: &P, ctl: &Rc<Ctl>) -> NextEnd<Res
     ctl.call_idx.set(0);
     ctl.fired_this_call.set(false);
     ctl.idle.set(false);
+    ctl.in_call.set(0);
     *ctl.fired.borrow_mut() = None;
     ctl.taken.borrow_mut().clear();
     ctl.trace.borrow_mut().clear();
@@ -374,6 +386,22 @@ pub async fn drive_next<T, P: Processor<T>>(p: &P, ctl: &Rc<Ctl>) -> NextEnd<Res
                     })
                 } else if ctl.idle.get() {
                     Poll::Ready(NextEnd::Idle)
+                } else if ctl.in_call.get() == 0 && ctl.cancels_left.get() > 0 && !ctl.fired_this_call.get() {
+                    // `next` suspended at a point of its own (a yield, a lock, a timer) outside
+                    // every store call: a cancellation point like any other
+                    let ch = ctl.chooser.borrow().clone();
+                    let cancel = ch.map(|ch| ch.choose(2, "cancel@own-suspension-point") == 1).unwrap_or(false);
+                    if cancel {
+                        ctl.cancels_left.set(ctl.cancels_left.get() - 1);
+                        ctl.fired_this_call.set(true);
+                        Poll::Ready(NextEnd::Cancelled {
+                            fired: Fired { call: "own-suspension-point", index: ctl.call_idx.get(), variant: "at", completed_first_poll: false },
+                            taken: ctl.taken.borrow().clone(),
+                            trace: ctl.trace.borrow().clone(),
+                        })
+                    } else {
+                        Poll::Pending
+                    }
                 } else {
                     Poll::Pending
                 }
